@@ -701,6 +701,8 @@ class ImplEngine(object):
 
     # -- lifecycle ----------------------------------------------------------
     def _open(self):
+        import keygen_cap
+        keygen_cap.install()
         self.engine = engine_mod.KmipEngine(policies=self.policies, database_path=self.db)
         if self.scripted:
             self.engine._cryptography_engine = FakeCrypto(self)
